@@ -36,6 +36,22 @@ FORMS = {
     "fixed_extensions": [(["fixed_extensions: for"], ["for"], ["for"]), (["fixed_extensions: for"], "for", ["for"])],
     "alias": [(["alias: a = b"], {"a": "b"}, {"a": "b"}), (["alias: a = b", "    c = d e"], {"a": "b", "c": "d e"}, {"a": "b", "c": "d e"})],
     "docmark": [(["docmark: ~"], "~", "~"), (["docmark: %"], "%", "%")],
+    # the layouts the user guide shows for multi-valued options: first value on the key's line, or the key on a line of
+    # its own followed by indented values; an empty value
+    "extra_filetypes": [(["extra_filetypes: c //"], [{"extension": "c", "comment": "//"}], "EFT:c|//|None"),
+                        (["extra_filetypes: c //", "    sh # bash"], [{"extension": "c", "comment": "//"}, {"extension": "sh", "comment": "#", "lexer": "bash"}],
+                         "EFT:c|//|None;sh|#|bash"),
+                        (["extra_filetypes:", "    c //", "    sh # bash"], [{"extension": "c", "comment": "//"}, {"extension": "sh", "comment": "#", "lexer": "bash"}],
+                         "EFT:c|//|None;sh|#|bash"),
+                        (["extra_filetypes:", "    c //"], [{"extension": "c", "comment": "//"}], "EFT:c|//|None"),
+                        (["extra_filetypes: "], [], "EFT:")],
+    "extra_mods": [(["extra_mods: json_module: http://x.org"], {"json_module": "http://x.org"}, "EM:json_module=http://x.org"),
+                   (["extra_mods:", "    json_module: http://x.org", "    futil: http://y.org"], {"json_module": "http://x.org", "futil": "http://y.org"},
+                    "EM:futil=http://y.org;json_module=http://x.org"),
+                   (["extra_mods: "], {}, "EM:")],
+    "external": [(["external: remote = http://x.org/doc"], {"remote": "http://x.org/doc"}, {"remote": "http://x.org/doc"}),
+                 (["external:", "    remote = http://x.org/doc"], {"remote": "http://x.org/doc"}, {"remote": "http://x.org/doc"})],
+    "macro": [(["macro: A=1"], ["A=1"], ["A=1"]), (["macro: A=1", "    B"], ["A=1", "B"], ["A=1", "B"])],
 }
 
 
@@ -43,6 +59,12 @@ def _effective(s, key):
     v = getattr(s, key)
     if key == "alias":
         return {k: v[k] for k in sorted(v)}
+    if key == "extra_filetypes":
+        return "EFT:" + ";".join(f"{k}|{v[k].comment}|{v[k].lexer}" for k in sorted(v))
+    if key == "extra_mods":
+        # the defaults (intrinsic modules) are merged in: compare the user-given part
+        from ford.settings import INTRINSIC_MODS
+        return "EM:" + ";".join(f"{k}={v[k]}" for k in sorted(v) if k not in INTRINSIC_MODS)
     if key == "extensions":
         # __post_init__ merges the pre-processed extensions in (a set union): compare the free-form part, order-free
         fpp = list(s.fpp_extensions)
@@ -89,6 +111,9 @@ def formats(ctx):
     for key in sorted(FORMS):
         def h(E, key=key):
             o = CV.choice(E, "form", FORMS[key]) if len(FORMS[key]) > 1 else FORMS[key][0]
+            if key in ("extra_filetypes", "extra_mods", "external") and isinstance(o, CV):
+                # values of these options are records/dicts built field by field: one path per form
+                o = FORMS[key][CV.choice(E, "formidx", list(range(len(FORMS[key])))).concretize()]
             h.o = o
             try:
                 a = _effective(_from_md(o[0]), key)
